@@ -534,6 +534,34 @@ def r01_11(ctx):
     ctx.run_rule("R01.11", "case flag reaches every regex build", body, floor=3)
 
 
+def r01_14(ctx):
+    """Bucket keys: the date/time conditions are keys of ordered maps and sets (`BTreeSet<DateTimeCondition>`
+    groups, the per-request memo).  A hand-written ordering of a key type must compare the *whole* key: it is one
+    std comparison (`Iterator::cmp`, `Ord::cmp`, slice / tuple comparison) of a projection of `self` with the same
+    projection of `other` — a comparison cut short (zip, take, find, first) makes different keys equal, and two
+    rules then share a bucket or a memo entry."""
+    F = ctx.facts
+    TRUNC = {"zip", "take", "take_while", "map_while", "find", "find_map", "position", "first", "last", "nth", "skip", "step_by", "any", "all"}
+
+    def body(r):
+        n = 0
+        for f in F.fn_list:
+            if f.trait != "std::cmp::Ord" or f.name != "cmp" or f.derived or not f.file.startswith("src/router/"):
+                continue
+            n += 1
+            r.analysed(f)
+            rets = {p.end[1] for p in Sym(f, copies=True).paths() if p.end[0] == "ret"}
+            whole = len(rets) == 1
+            e = next(iter(rets)) if rets else ()
+            whole = whole and e[0] == "call" and e[1].rsplit("::", 1)[1] == "cmp" and len(e[2]) == 2 \
+                and mentions(e[2][0], lambda x: x == ("param", 1)) and not mentions(e[2][0], lambda x: x == ("param", 2)) \
+                and mentions(e[2][1], lambda x: x == ("param", 2)) and not mentions(e[2][1], lambda x: x == ("param", 1))
+            cut = sorted({cal.name for b in f.all_bodies() for bi, t, cal in b.calls() if cal is not None and not cal.local and cal.name in TRUNC})
+            r.ob("key-order:%s" % f.key, whole and not cut, f.site, "cmp is one comparison of the whole key of self with that of other" if whole and not cut else "cmp is not a single whole-key comparison (returns %s; truncating adaptors %s)" % ([show(x, f)[:80] for x in rets], cut))
+        r.ob("key-order:impls", n >= 2, "", "%d hand-written Ord impls under src/router" % n)
+    ctx.run_rule("R01.14", "hand-written orderings of bucket keys compare the whole key", body, floor=3)
+
+
 def run(ctx):
     try:
         layers = LY.discover(ctx.facts)
@@ -557,3 +585,4 @@ def run(ctx):
     r02_8(ctx, layers, rid="R01.12")
     from .c02 import r02_9
     r02_9(ctx, layers, rid="R01.13")
+    r01_14(ctx)
